@@ -94,11 +94,12 @@ func Detect(r io.Reader) FileType {
 		return FileTypeDEB
 	case hasPrefix(br, []byte("-----BEGIN PGP")):
 		return FileTypePGP
-	case contains(br, []byte{0x06, 0x09, 0x2B, 0x06, 0x01, 0x04, 0x01, 0x82, 0x37, 0x0A, 0x01}, 256):
-		// OID certTrustList
+	case hasPrefix(br, []byte{0x30}) && contains(br, []byte{0x06, 0x09, 0x2B, 0x06, 0x01, 0x04, 0x01, 0x82, 0x37, 0x0A, 0x01}, 256):
+		// DER sequence with OID certTrustList
 		return FileTypeCAT
-	case contains(br, []byte{0x06, 0x09, 0x2A, 0x86, 0x48, 0x86, 0xF7, 0x0D, 0x01, 0x07, 0x02}, 256):
-		// OID signedData
+	case hasPrefix(br, []byte{0x30}) && contains(br, []byte{0x06, 0x09, 0x2A, 0x86, 0x48, 0x86, 0xF7, 0x0D, 0x01, 0x07, 0x02}, 256):
+		// DER sequence with OID signedData (a small signed file of another type,
+		// e.g. a cabinet, can have its signature within the first 256 bytes too)
 		return FileTypePKCS7
 	case isTar(br):
 		return detectTar(br)
